@@ -4,6 +4,45 @@ import NunavutVerif.Lemmas.PyObj
 namespace NunavutVerif.PyReflect
 open NunavutVerif.PyObj
 
+theorem segmentsAux_flatten (n : Nat) (hn : 0 < n) : ∀ (fuel : Nat) (s : List Char), s.length ≤ fuel →
+    (segmentsAux n fuel s).flatten = s := by
+  intro fuel
+  induction fuel with
+  | zero => intro s h; cases s <;> simp_all [segmentsAux]
+  | succ k ih =>
+    intro s h
+    simp only [segmentsAux]
+    split
+    · rename_i he; simp at he; simp [he]
+    · rename_i he
+      have hpos : 0 < s.length := by cases s <;> simp_all
+      rw [List.flatten_cons, ih (s.drop n) (by rw [List.length_drop]; omega), List.take_append_drop]
+
+theorem segments_flatten (n : Nat) (hn : 0 < n) (s : List Char) : (segments n s).flatten = s :=
+  segmentsAux_flatten n hn s.length s (Nat.le_refl _)
+
+theorem segmentsAux_bound (n : Nat) (hn : 0 < n) : ∀ (fuel : Nat) (s : List Char), ∀ seg ∈ segmentsAux n fuel s,
+    seg ≠ [] ∧ seg.length ≤ n := by
+  intro fuel
+  induction fuel with
+  | zero => intro s seg h; simp [segmentsAux] at h
+  | succ k ih =>
+    intro s seg h
+    simp only [segmentsAux] at h
+    split at h
+    · simp at h
+    · rename_i he
+      rcases List.mem_cons.1 h with rfl | h
+      · constructor
+        · intro hc
+          have hlen : (s.take n).length = 0 := by rw [hc]; rfl
+          rw [List.length_take] at hlen
+          cases s with
+          | nil => simp at he
+          | cons a t => simp at hlen; omega
+        · rw [List.length_take]; omega
+      · exact ih _ _ h
+
 theorem write_same {B : Type} (fs : FS B) (p : Path) (f : File B) : write fs p f p = some f := by
   simp [write]
 
@@ -183,5 +222,37 @@ theorem lookup_of_unique {β : Type} (key : String) (v : β) : ∀ (l : List (St
         · exact absurd hek.symm hk
         · exact ⟨e, h, hek⟩
       · intro e he; exact hall e (List.mem_cons_of_mem _ he)
+
+theorem lookup_none_of_keys {β : Type} (key : String) : ∀ (l : List (String × β)),
+    (∀ e ∈ l, e.1 ≠ key) → l.lookup key = none := by
+  intro l
+  induction l with
+  | nil => intro _; rfl
+  | cons a l ih =>
+    intro h
+    obtain ⟨k, w⟩ := a
+    have hk : (key == k) = false := by
+      have := h (k, w) List.mem_cons_self
+      simpa using fun hkk : key = k => this hkk.symm
+    simp only [List.lookup, hk]
+    exact ih (fun e he => h e (List.mem_cons_of_mem _ he))
+
+/-- The import line of `d` is the first one that binds the name `shortRef d` in its package. -/
+theorem find_import {M : Type} (defs : List (Def M)) (d : Def M) (hd : d ∈ defs) :
+    ((defs.filter fun e => e.ns = d.ns).map fun e => (modulePath e, shortRef e)).find?
+      (fun mc => mc.2 = shortRef d) = some (modulePath d, shortRef d) := by
+  have hhere : d ∈ defs.filter (fun e => e.ns = d.ns) := List.mem_filter.2 ⟨hd, by simp⟩
+  cases hf : ((defs.filter fun e => e.ns = d.ns).map fun e => (modulePath e, shortRef e)).find?
+      (fun mc => mc.2 = shortRef d) with
+  | none =>
+    rw [List.find?_eq_none] at hf
+    exact absurd (by simp) (hf (modulePath d, shortRef d) (List.mem_map.2 ⟨d, hhere, rfl⟩))
+  | some mc =>
+    have hp := List.find?_some hf
+    have hm := List.mem_of_find?_eq_some hf
+    obtain ⟨e, he, rfl⟩ := List.mem_map.1 hm
+    obtain ⟨_, hens⟩ := List.mem_filter.1 he
+    simp only [decide_eq_true_eq] at hens hp
+    simp only [modulePath, hens, hp]
 
 end NunavutVerif.PyReflect
